@@ -6,6 +6,7 @@ CONSTANTS
   SessionLoss = TRUE
   ClearAfterRequeue = TRUE
   KeepOldWaiter = FALSE
+  CancelOnPublish = TRUE
   SilentLoss = TRUE
   LossyWrites = FALSE
 INVARIANT EmitScript
